@@ -286,21 +286,18 @@ def build(case):
 
 
 def classify_reject(case):
-    """known class (FINDINGS.md, finding 2): an input promoted with a FLAT FULL slice to a name shared
-    with other promoted inputs makes the shared node take the flattened shape"""
-    def full_flat(lv):
-        if not (lv['flat'] is True and lv['ix']['t'] == 'slice' and len(lv['in_shape']) > 1):
-            return False
-        a, b, c = lv['ix']['v']
-        return a in (None, 0) and b is None and c in (None, 1)
-    byname = {}
+    """known class (FINDINGS.md, finding 2): a FLAT FULL slice (start None, stop None, step None/1:
+    Indexer.is_full_slice) given on a promotes level over an N-D source is treated as "no indices", so
+    the promoted node takes the flattened shape; setup then fails either for a sibling promoted to the
+    same name or in the shape check of the connection that feeds the promoted node"""
     for t in case['sinks']:
         for i in t['inputs']:
-            if i['style'] in ('implicit', 'auto'):
-                byname.setdefault(i['src'], []).append(i)
-    for name, ins in byname.items():
-        if len(ins) > 1 and any(lv['where'] == 'root' and full_flat(lv) for i in ins for lv in i['chain']):
-            return 'flat-full-slice-on-shared-promoted-name'
+            for lv in i['chain']:
+                if lv['where'] != 'connect' and lv['flat'] is True and lv['ix']['t'] == 'slice' \
+                        and len(lv['in_shape']) > 1:
+                    a, b, c = lv['ix']['v']
+                    if a is None and b is None and c in (None, 1):
+                        return 'flat-full-slice-on-shared-promoted-name'
     return 'setup-rejected'
 
 
